@@ -12,6 +12,7 @@ the repaired model admits the response.  The full refinement statement is kept v
 "OPEN — carried by K/O only" at the end.
 -/
 import NitroVerif.Lemmas.OpTypes
+import NitroVerif.Lemmas.OpTypesDen
 import NitroVerif.Lemmas.TsSemSound
 namespace NitroVerif.Props.C01
 open NitroVerif.Gql NitroVerif.Ts NitroVerif.OpTypes NitroVerif.OpTypes.W NitroVerif.Exec
@@ -95,6 +96,69 @@ theorem parentObjects_possibleTypes {S : Schema} {p : Name} {t : TypeDef} {objs 
 /-- the hypotheses are satisfiable: the witness object type `A` -/
 example : ∃ objs, parentObjects W.S "A" = .ok objs ∧ objs.map (·.name) = W.S.possibleTypes "A" := ⟨_, rfl, rfl⟩
 
+/-! ### the model's CollectFields tests are the specification's (step (i), local part) -/
+
+/-- `check_skip_directive` under a branch's assignment decides exactly the specification's `@skip`/`@include` test under
+    that assignment read as σ — whenever the code does not panic, with no further hypothesis. -/
+theorem checkSkip_agrees_with_spec (vars : List (Name × Bool)) (ds : List Directive) (b : Bool)
+    (h : checkSkip vars ds = .ok b) : b = !included (sigmaOf vars) ds :=
+  checkSkip_spec vars ds b h
+
+/-- `check_fragment_condition` decides exactly DoesFragmentTypeApply (spec §6.3.2) for the branch's object type. -/
+theorem fragmentApplies_agrees_with_spec (S : Schema) (obj : TypeDef) (cond : Name) (b : Bool)
+    (hobj : S.typeDef? obj.name = some obj) (h : fragmentApplies S obj cond = .ok b) :
+    b = fragmentTypeApplies S obj.name cond :=
+  fragmentApplies_spec S obj cond b hobj h
+
+/-- the hypotheses are satisfiable: `@skip(if: $v)` under v = true on the witness, and `A` against itself -/
+example : checkSkip [("v", true)] [W.skipV] = .ok true ∧
+    (W.S.typeDef? "A").isSome = true ∧ ∃ o, W.S.typeDef? "A" = some o ∧ fragmentApplies W.S o "A" = .ok true :=
+  ⟨rfl, rfl, _, rfl, rfl⟩
+
+/-! ### the printed type denotes the tree (step (iv) of the refinement) -/
+
+/-- **`toTs` is denotation-preserving.** For a well-formed selection tree (no empty branch list, every branch's type
+    declared, aliased keys distinct and different from the unaliased ones) the TypeScript type `treeTs r t nn` admits
+    exactly the values `DenTree` describes by recursion on the tree: `null` iff the position is nullable, lists
+    element-wise, at an object position a record fitting one branch — for every unaliased field whose key the schema
+    declaration declares and every aliased field a fitting value (`k?: never` = absent, `__typename` = the branch's
+    type name, other leaves wrapper-exact, object fields recursively) and no other key. -/
+theorem toTs_denotation {e : Env} {r : Refs} {orig : Name → Option (List Field)} (h : EnvOk e r orig)
+    (t : SelTree) (nn : Bool) (v : J) (hw : WFTree orig t) :
+    Mem e v (treeTs r t nn) ↔ DenTree e r orig t nn v :=
+  den_tree h t nn v hw
+
+/-- Binding time: resolving the references of the printed type (`globalise`) is the same as printing with resolved
+    references — for ALL trees and declaration tables. -/
+theorem toTs_closed (d : Decls) (ns : String) (t : SelTree) :
+    globalise d [] [] (toTs ns t) = treeTs ((Refs.ofNs ns).close d) t false :=
+  glob_tree d (Refs.ofNs ns) t false
+
+/-- **The emitted type, read with the emitted schema declaration file, denotes the tree**: whenever
+    `<ns>.__SelectionSet` resolves to a declaration carrying the prelude text, membership in the closed emitted type of
+    a well-formed tree is `DenTree` with `keyof Orig` read off the declarations. -/
+theorem toTs_denotation_emitted (d : Decls) (ns : String) (path : List String)
+    (hsel : globalise d [] [] (.qref [ns, "__SelectionSet"]) = .other "abs" path)
+    (hp : SelSem.isSelectionSet d path = true) (t : SelTree) (v : J)
+    (hw : WFTree (fun tn => SelSem.origFields d 8 (((Refs.ofNs ns).close d).out tn)) t) :
+    Mem { decls := d, appHook := SelSem.hook } v (globalise d [] [] (toTs ns t)) ↔
+      DenTree { decls := d, appHook := SelSem.hook } ((Refs.ofNs ns).close d)
+        (fun tn => SelSem.origFields d 8 (((Refs.ofNs ns).close d).out tn)) t false v := by
+  rw [toTs_closed]
+  exact den_tree (envOk_of_hook d ((Refs.ofNs ns).close d) path hsel hp
+    (fun n => (globalise_qref_shape d [ns, "__OperationOutput", n]).1)
+    (fun n => (globalise_qref_shape d [ns, "__OperationOutput", n]).2)) t false v hw
+
+set_option maxRecDepth 16384 in
+/-- the hypotheses are satisfiable: the witness schema declaration file and the tree the repaired model builds -/
+example : W.newTree = .ok W.witnessTree ∧
+    globalise W.env.decls [] [] (.qref ["Schema", "__SelectionSet"]) = .other "abs" ["Schema", "__SelectionSet"] ∧
+    SelSem.isSelectionSet W.env.decls ["Schema", "__SelectionSet"] = true ∧
+    WFTree (fun tn => SelSem.origFields W.env.decls 8 (((Refs.ofNs "Schema").close W.env.decls).out tn)) W.witnessTree := by
+  refine ⟨rfl, rfl, rfl, ?_⟩
+  have h : (SelSem.origFields W.env.decls 8 (((Refs.ofNs "Schema").close W.env.decls).out "A")).isSome = true := rfl
+  simp [W.witnessTree, WFTree, WFBranches, WFBranch, WFFields, WFField, h]
+
 /-! ### §9-a: sub-tree branches merged by type name only (pre-repair), and the repaired merge -/
 
 /-- **Counterexample to C01 on the pinned code (§9-a).** For the document `{ a { x } a { y @skip(if: $v) } }` the
@@ -153,7 +217,7 @@ theorem alias_named_typename_counterexample :
       = .ok (.leaf "__typename" (.nonNull (.named "String" {})) false) ∧
     (fieldTsByKey "Schema" "Query" (.leaf "__typename" (.nonNull (.named "String" {})) false)).2.2.2 = .strLit "Query" ∧
     ¬ Mem W.env (.str "s") (.strLit "Query") ∧
-    (fieldTs "Schema" "Query" (.leaf "__typename" (.nonNull (.named "String" {})) false)).2.2.2
+    (fieldTs (Refs.ofNs "Schema") "Query" (.leaf "__typename" (.nonNull (.named "String" {})) false)).2.2.2
       = .qref ["Schema", "__OperationOutput", "String"] ∧
     Mem W.env (.str "s") (W.close (.qref ["Schema", "__OperationOutput", "String"])) := by
   refine ⟨⟨2, execMem_sound _ _ 2 _ _ _ (by decide +kernel)⟩, rfl, rfl, ?_, rfl, ?_⟩
@@ -173,8 +237,11 @@ OPEN — carried by K/O only (stated at full strength; not proved in budget)
   -- proof plan (DESIGN §4): (i) `fieldsFor` under branch (o, β) lists per response key the fields `collectFields o ss β`
   -- groups (skipped ones as `empty`); (ii) `branches_cover` (proved above) + `parentObjects = possibleTypes`;
   -- (iii) `deepMerge` denotes the merged selection set — TRUE of the repaired merge (pairs by type and assignment),
-  -- false of the pinned one (`merge_by_typename_counterexample`); (iv) `toTs` is denotation-preserving
-  -- (leaf part proved: Props/C02 `leafTs_exact`).
+  -- false of the pinned one (`merge_by_typename_counterexample`); (iv) `toTs` is denotation-preserving.
+  -- PROVED of this plan: (iv) completely (`toTs_denotation`, `toTs_closed`, `toTs_denotation_emitted`, leaf part
+  -- `leafTs_exact`); of (i) the two local tests (`checkSkip_agrees_with_spec`, `fragmentApplies_agrees_with_spec`);
+  -- (ii) `branches_cover`, `parentObjects_possibleTypes`.  STILL OPEN: (i) for whole selection sets (the field lists
+  -- of `fieldsFor` vs the groups of `collectFields`, through fragments), (iii) the merge lemma, `impl_no_panic`.
   What carries these statements today: K (model = code, tree against tree on the real emitted text) and O
   (`oracle.c01`: every enumerated Exec response is a member of the REAL emitted type; 0 failures after the repairs).
 -/
